@@ -128,3 +128,99 @@ Lemma tie_info_print : TIE_info_print =
    (0, "putchar('\n')");
    (0, "mtbl_reader_destroy(&r)")].
 Proof. reflexivity. Qed.
+
+(* mtbl/metadata.c: metadata_write *)
+Lemma tie_meta_metadata_write : TIE_meta_metadata_write =
+  [(0, "size_tpadding");
+   (0, "uint8_t*p=buf");
+   (0, "p+=mtbl_fixed_encode64(p,m->index_block_offset)");
+   (0, "p+=mtbl_fixed_encode64(p,m->data_block_size)");
+   (0, "p+=mtbl_fixed_encode64(p,m->compression_algorithm)");
+   (0, "p+=mtbl_fixed_encode64(p,m->count_entries)");
+   (0, "p+=mtbl_fixed_encode64(p,m->count_data_blocks)");
+   (0, "p+=mtbl_fixed_encode64(p,m->bytes_data_blocks)");
+   (0, "p+=mtbl_fixed_encode64(p,m->bytes_index_block)");
+   (0, "p+=mtbl_fixed_encode64(p,m->bytes_keys)");
+   (0, "p+=mtbl_fixed_encode64(p,m->bytes_values)");
+   (0, "padding=MTBL_METADATA_SIZE-(p-buf)-sizeof(uint32_t)");
+   (0, "while(padding--!=0)*(p++)='\0'");
+   (0, "mtbl_fixed_encode32(buf+MTBL_METADATA_SIZE-sizeof(uint32_t),MTBL_MAGIC)")].
+Proof. reflexivity. Qed.
+
+(* mtbl/metadata.c: metadata_read *)
+Lemma tie_meta_metadata_read : TIE_meta_metadata_read =
+  [(0, "uint32_tmagic");
+   (0, "constuint8_t*p=buf");
+   (0, "magic=mtbl_fixed_decode32(buf+MTBL_METADATA_SIZE-sizeof(uint32_t))");
+   (0, "if(magic==MTBL_MAGIC_V1)m->file_version=MTBL_FORMAT_V1");
+   (0, "elseif(magic==MTBL_MAGIC)m->file_version=MTBL_FORMAT_V2");
+   (0, "elsereturn(false)");
+   (0, "m->index_block_offset=mtbl_fixed_decode64(p)");
+   (0, "p+=8");
+   (0, "m->data_block_size=mtbl_fixed_decode64(p)");
+   (0, "p+=8");
+   (0, "m->compression_algorithm=mtbl_fixed_decode64(p)");
+   (0, "p+=8");
+   (0, "m->count_entries=mtbl_fixed_decode64(p)");
+   (0, "p+=8");
+   (0, "m->count_data_blocks=mtbl_fixed_decode64(p)");
+   (0, "p+=8");
+   (0, "m->bytes_data_blocks=mtbl_fixed_decode64(p)");
+   (0, "p+=8");
+   (0, "m->bytes_index_block=mtbl_fixed_decode64(p)");
+   (0, "p+=8");
+   (0, "m->bytes_keys=mtbl_fixed_decode64(p)");
+   (0, "p+=8");
+   (0, "m->bytes_values=mtbl_fixed_decode64(p)");
+   (0, "return(true)")].
+Proof. reflexivity. Qed.
+
+(* mtbl/metadata.c: mtbl_metadata_file_version *)
+Lemma tie_meta_mtbl_metadata_file_version : TIE_meta_mtbl_metadata_file_version =
+  [(0, "returnm->file_version")].
+Proof. reflexivity. Qed.
+
+(* mtbl/metadata.c: mtbl_metadata_index_block_offset *)
+Lemma tie_meta_mtbl_metadata_index_block_offset : TIE_meta_mtbl_metadata_index_block_offset =
+  [(0, "returnm->index_block_offset")].
+Proof. reflexivity. Qed.
+
+(* mtbl/metadata.c: mtbl_metadata_data_block_size *)
+Lemma tie_meta_mtbl_metadata_data_block_size : TIE_meta_mtbl_metadata_data_block_size =
+  [(0, "returnm->data_block_size")].
+Proof. reflexivity. Qed.
+
+(* mtbl/metadata.c: mtbl_metadata_compression_algorithm *)
+Lemma tie_meta_mtbl_metadata_compression_algorithm : TIE_meta_mtbl_metadata_compression_algorithm =
+  [(0, "returnm->compression_algorithm")].
+Proof. reflexivity. Qed.
+
+(* mtbl/metadata.c: mtbl_metadata_count_entries *)
+Lemma tie_meta_mtbl_metadata_count_entries : TIE_meta_mtbl_metadata_count_entries =
+  [(0, "returnm->count_entries")].
+Proof. reflexivity. Qed.
+
+(* mtbl/metadata.c: mtbl_metadata_count_data_blocks *)
+Lemma tie_meta_mtbl_metadata_count_data_blocks : TIE_meta_mtbl_metadata_count_data_blocks =
+  [(0, "returnm->count_data_blocks")].
+Proof. reflexivity. Qed.
+
+(* mtbl/metadata.c: mtbl_metadata_bytes_data_blocks *)
+Lemma tie_meta_mtbl_metadata_bytes_data_blocks : TIE_meta_mtbl_metadata_bytes_data_blocks =
+  [(0, "returnm->bytes_data_blocks")].
+Proof. reflexivity. Qed.
+
+(* mtbl/metadata.c: mtbl_metadata_bytes_index_block *)
+Lemma tie_meta_mtbl_metadata_bytes_index_block : TIE_meta_mtbl_metadata_bytes_index_block =
+  [(0, "returnm->bytes_index_block")].
+Proof. reflexivity. Qed.
+
+(* mtbl/metadata.c: mtbl_metadata_bytes_keys *)
+Lemma tie_meta_mtbl_metadata_bytes_keys : TIE_meta_mtbl_metadata_bytes_keys =
+  [(0, "returnm->bytes_keys")].
+Proof. reflexivity. Qed.
+
+(* mtbl/metadata.c: mtbl_metadata_bytes_values *)
+Lemma tie_meta_mtbl_metadata_bytes_values : TIE_meta_mtbl_metadata_bytes_values =
+  [(0, "returnm->bytes_values")].
+Proof. reflexivity. Qed.
